@@ -35,6 +35,9 @@ func (v progValue) Marshal(b *cryptobyte.Builder) error {
 type runner struct {
 	stack  []*cryptobyte.Builder // builders with a pending child, outermost first
 	opsRun int
+	// input immutability of AddBytes arguments
+	argModified bool
+	argsChecked int
 }
 
 func (x *runner) cont(parent *cryptobyte.Builder, kids []*op) cryptobyte.BuilderContinuation {
@@ -66,7 +69,18 @@ func (x *runner) run(b *cryptobyte.Builder, ops []*op) {
 				b.AddUint64(o.v)
 			}
 		case kBytes:
-			b.AddBytes(pattern(o.n, o.seed))
+			// the argument is handed over with sentinel-filled spare capacity, verified unchanged afterwards and then
+			// overwritten: a Builder that kept a reference instead of copying would produce wrong bytes
+			want := pattern(o.n, o.seed)
+			g := newGuarded(want)
+			b.AddBytes(g[:o.n])
+			if !guardedIntact(g, want) {
+				x.argModified = true
+			}
+			for i := range g {
+				g[i] = 0x5a
+			}
+			x.argsChecked++
 		case kLP:
 			f := x.cont(b, o.kids)
 			switch o.n {
@@ -114,15 +128,17 @@ func (x *runner) run(b *cryptobyte.Builder, ops []*op) {
 }
 
 type outcome struct {
-	panicked bool
-	pv       any
-	site     string
-	out      []byte
-	err      error
-	bopPanic any
-	bopOut   []byte
-	buf      []byte // the buffer handed to the constructor (nil for ctor 0/1)
-	opsRun   int
+	panicked    bool
+	pv          any
+	site        string
+	out         []byte
+	err         error
+	bopPanic    any
+	bopOut      []byte
+	buf         []byte // the buffer handed to the constructor (nil for ctor 0/1)
+	opsRun      int
+	argModified bool
+	argsChecked int
 }
 
 func prefixBytes(n int) []byte {
@@ -155,7 +171,7 @@ func execute(p *program, capAbs int64) outcome {
 	}
 	x := &runner{}
 	pv, stack := mon.Panics(func() { x.run(b, p.ops) })
-	o.opsRun = x.opsRun
+	o.opsRun, o.argModified, o.argsChecked = x.opsRun, x.argModified, x.argsChecked
 	if pv != nil {
 		o.panicked, o.pv, o.site = true, pv, mon.PanicSite(stack)
 		return o
@@ -374,6 +390,9 @@ func judge(p *program, readSeed uint64) verdict {
 		v.expect = "ok"
 	}
 
+	if o.argModified {
+		add("builder-modified-argument:AddBytes", nil)
+	}
 	if o.panicked {
 		if m.stop != nil {
 			if m.stop.kind == "raw-panic" && o.pv != any(rawPanicValue) {
@@ -459,6 +478,7 @@ func judge(p *program, readSeed uint64) verdict {
 		if p.prefix == 0 {
 			s = cryptobyte.String(o.out)
 		}
+		preEqual := bytes.Equal(o.out, want)
 		ps := &parser{r: rand.New(rand.NewPCG(readSeed, 0xc22)), modes: map[string]int{}}
 		ok := ps.level(&s, lv.items, "")
 		v.reads, v.modes = ps.reads, ps.modes
@@ -466,6 +486,9 @@ func judge(p *program, readSeed uint64) verdict {
 			add("parse-back-failed", map[string]any{"where": ps.fail, "out_len": len(o.out)})
 		} else {
 			v.parsed = true
+		}
+		if preEqual && !bytes.Equal(o.out, want) {
+			add("reader-modified-input", nil) // the output equalled the model before the mirrored reads ran
 		}
 		if ps.nilZero {
 			add("zero-length-read-fails-on-nil-string", map[string]any{"out_is_nil": o.out == nil, "note": "Bytes() of a builder that wrote nothing is nil; String(nil).ReadBytes(&v,0)/CopyBytes(empty) report failure although String([]byte{}).ReadBytes(&v,0) succeeds"})
@@ -809,6 +832,7 @@ func TestC22(t *testing.T) {
 		m.Distinct(fmt.Sprintf("%s ctor=%d depth=%d exp=%s", p.plan, p.ctor, mm.maxDepth, v.expect))
 		m.Count("plan:"+p.plan, 1)
 		m.Count("ops_executed", v.o.opsRun)
+		m.Count("addbytes_args_checked", v.o.argsChecked)
 		for k, n := range mm.ev {
 			m.Count(k, n)
 		}
@@ -893,6 +917,7 @@ func TestC22(t *testing.T) {
 	m.Gate("expected_panic_seen:raw-panic", 50, "continuation panics with other value")
 	m.Gate("expected_panic_seen:misuse-ancestor", 100, "parent used while child pending")
 	m.Gate("unwrite_legal", 1000, "legal Unwrite")
+	m.Gate("addbytes_args_checked", m.N(20000, 1000000), "AddBytes arguments verified unchanged (incl. spare capacity) and overwritten afterwards")
 	m.Gate("fixed_exact_capacity_ok", 500, "fixed builder with exactly the needed capacity")
 	m.Gate("fixed_alias_checked", 1000, "result aliases the given array")
 	m.Gate("error_expected:fixed-exceeded", 500, "fixed builder with insufficient capacity")
